@@ -1,3 +1,4 @@
+mod alloc;
 mod chooser;
 mod explore;
 mod net;
@@ -7,6 +8,9 @@ mod scenario;
 mod types;
 mod wire;
 mod world;
+
+#[global_allocator]
+static GLOBAL: alloc::Counting = alloc::Counting;
 
 fn main() {
     // panics inside the subject are observations, not crashes of the harness: keep them quiet
@@ -22,6 +26,8 @@ fn main() {
         "C03" => props::core::c03(),
         "C04" => props::core::c04(),
         "C13" => props::synctest::c13(),
+        "C14" => props::codec::c14(),
+        "worker-c14" => props::codec::worker(&args[2..]),
         other => {
             eprintln!("unknown command {other}");
             2
